@@ -25,8 +25,8 @@ def validate(run, tier):
     cfgs = [dict(clustering=False), dict(clustering=True, sample="rwm", resample="syst")]
     if tier != "quick":
         cfgs += [dict(clustering=True), dict(clustering=False, sample="rwm"), dict(clustering=False, resample="syst", volume_variation=0.5)]
-    for target in ("interior", "periodic", "edge", "corr"):
-        for cfg in (cfgs if target != "corr" else [dict(clustering=False), dict(clustering=True)][:1 if tier == "quick" else 2]):
+    for target in ("interior", "periodic", "periodic_shift", "edge", "corr"):
+        for cfg in (cfgs if target not in ("corr", "periodic_shift") else [dict(clustering=False), dict(clustering=True)][:1 if tier == "quick" else 2]):
             res = ens.run_ensemble(target, cfg, R, npart, 5000)
             bad = [r for r in res if not r["ok"]]
             what = dict(target=target, cfg=cfg, runs=R, n_particles=npart, seeds="5000..")
@@ -42,6 +42,16 @@ def validate(run, tier):
             # Monte-Carlo error (6 standard errors) plus a finite-particle allowance
             if abs(e_m) > 6 * se_m + 0.03 or abs(e_v) > 6 * se_v + 0.06:
                 run.fail("posterior-estimate-biased", f"over {R} seeds: posterior mean error {e_m:+.3f} (se {se_m:.3f}), variance error {e_v:+.3f} (se {se_v:.3f})", **what)
+            if target.startswith("periodic"):
+                # the periodic coordinate itself: circular moments of a von Mises (kappa = 2) posterior, mode at phase 0
+                from scipy import special
+                m1 = float(special.iv(1, 2.0) / special.iv(0, 2.0))
+                e_c, se_c = ens.stats([r["circ"][0] for r in res], m1)
+                e_s, se_s = ens.stats([r["circ"][1] for r in res], 0.0)
+                run.extra["ensemble"][-1].update(cos_err=round(e_c, 4), cos_se=round(se_c, 4), sin_err=round(e_s, 4), sin_se=round(se_s, 4))
+                if abs(e_c) > 6 * se_c + 0.03 or abs(e_s) > 6 * se_s + 0.03:
+                    run.fail("periodic-coordinate-biased", f"{target}: circular moments of the periodic coordinate over {R} seeds: E[cos] error "
+                             f"{e_c:+.3f} (se {se_c:.3f}), E[sin] error {e_s:+.3f} (se {se_s:.3f})", **what)
             if target == "corr":
                 e_c, se_c = ens.stats([r["cov01"] for r in res], ens.RHO * ens.S ** 2)
                 run.extra["ensemble"][-1].update(cov_err=round(e_c, 4), cov_se=round(se_c, 4))
